@@ -13,7 +13,10 @@ from .evutil import BASE, mk_event, us_of_dt, us_of_td
 
 RULE = ("boundary corpus (every sequence of up to 4 matching category depths 0..3 with non-matching rules "
         "interleaved; every regex x ignore_case x select_keys variant x data variant through Rule.match; every url "
-        "and every title of the pools, with/without app, other keys, missing and non-string values) then seeded "
+        "and every title of the pools, with/without app, other keys, missing and non-string values; round 2: every "
+        "transform on events whose OTHER keys - in particular the keys the code names literally: app, title, url - "
+        "hold every string of the title/url pools that some substitution of the package rewrites, for every choice "
+        "of the simplified key among title/app/url/name/label, with/without app and title) then seeded "
         "random event lists x rule lists; non-trivial = distinct canonical case in which a rule matched / a url was "
         "split / a title was rewritten / an exception class was compared")
 
@@ -294,6 +297,42 @@ def gen_title_grid():
     yield {"kind": "simplify", "key": "title", "events": [ev(0, [("title", "(1) a"), ("app", None)])]}
 
 
+# Round 2.  Strings that at least one rewriting step of the package changes (parens prefix, FPS counter, leading
+# bullet/asterisk, www. prefix, url splitting): put under the keys a transform does NOT own, they make any
+# write outside the owned keys visible to the frame oracle.
+CANARIES = [t for t in TITLES if any(x != t for x in h_subs(t))] + [u for u in URLS if type(u) is str and "www." in u]
+LITERAL_KEYS = ["app", "title", "url"]        # data keys the transforms' source names (besides the $-keys they own)
+
+
+def gen_cross_key_grid():
+    """simplify_string(events, key) for every key of a small set, on events in which every other key - above
+    all the literal keys app / title / url - holds a rewritable string; and the three other transforms on
+    events full of rewritable strings."""
+    probes = ["(3) Facebook", "Cemu - FPS: 59.2 - game", "* unsaved", "plain"]
+    n = 0
+    for key in ("name", "app", "label", "url", "title"):
+        for t in TITLES:
+            for kv in probes:
+                n += 1
+                full = [(k, t) for k in ("app", "title", "url", "name", "label") if k != key]
+                full.insert(n % (len(full) + 1), (key, kv))
+                if key != "title":      # smallest first: app, title and the key only / title and the key only
+                    yield {"kind": "simplify", "key": key, "events": [ev(0, [(k, v) for k, v in full if k in (key, "app", "title")])]}
+                    yield {"kind": "simplify", "key": key,
+                           "events": [ev(0, [(k, v) for k, v in reversed(full) if k in (key, "title")])]}
+                yield {"kind": "simplify", "key": key, "events": [ev(0, full), ev(1, list(reversed(full)), eid=n)]}
+                if key != "app":        # the same without app
+                    yield {"kind": "simplify", "key": key, "events": [ev(0, [(k, v) for k, v in full if k != "app"])]}
+    for i, t in enumerate(CANARIES):
+        items = [("app", t), ("title", t), ("name", t), ("nested", {"title": t, "app": [t]}), ("lst", [t])]
+        rules = [({"regex": ".", "select_keys": ["title"]}, None), ({"regex": re.escape(t[:3]), "ignore_case": True}, None)]
+        yield {"kind": "categorize", "events": [ev(0, items, eid=i)],
+               "classes": [(["A"], rules[0][0], None), (["A", "B"], rules[1][0], None)]}
+        yield {"kind": "tag", "events": [ev(0, items, eid=i)], "classes": [("t1", rules[0][0], None), ("t2", rules[1][0], None)]}
+        yield {"kind": "split", "events": [ev(0, items + [("url", "http://www.example.com/(1)%20*;p?FPS:%201#f")], eid=i),
+                                          ev(1, [("url", t)] + items)]}
+
+
 def rand_data(rng, pool_keys=("app", "title", "url", "n", "lst", "none", "extra", "$category", "$tags", "name")):
     keys = rng.sample(pool_keys, rng.randrange(0, 6))
     items = []
@@ -305,6 +344,8 @@ def rand_data(rng, pool_keys=("app", "title", "url", "n", "lst", "none", "extra"
             v = [rng.choice(VALUES) for _ in range(rng.randrange(0, 3))]
         elif k == "url" and r < 0.8:
             v = rng.choice([u for u in URLS if type(u) is str])
+        elif r > 0.8:        # round 2: a string that some substitution of the package rewrites
+            v = rng.choice(CANARIES)
         else:
             v = rng.choice(VALUES)
         items.append((k, v))
@@ -370,7 +411,8 @@ def gen_random(rng, n):
             key = rng.choice(["title", "title", "title", "name", "app"])
 
             def d():
-                items = rand_data(rng, ("app", "n", "extra", "url", "$category", "other"))
+                items = rand_data(rng, ("app", "title", "name", "n", "extra", "url", "$category", "other"))
+                items = [(k, v) for k, v in items if k != key]
                 q = rng.random()
                 if q < 0.9:
                     items.insert(rng.randrange(0, len(items) + 1), (key, rng.choice(TITLES + VALUES[:4])))
@@ -628,6 +670,9 @@ def main(argv=None):
 
     n_rand = 4000 if ck.tier == "quick" else 250000
     cases = list(gen_pick_grid(4 if ck.tier == "quick" else 6)) + list(gen_url_grid()) + list(gen_title_grid())
+    cross = list(gen_cross_key_grid())
+    ck.coverage["cross_key_grid_cases"] = len(cross)
+    cases += cross
     grid = list(gen_match_grid())
     cases += grid
     cases += list(gen_random(ck.rng, n_rand))
